@@ -24,6 +24,8 @@ LEVEL_TEXT = (
     "overlay (3^n) and a multi-output provider family are built with the real Model; the outcome (values, "
     "MissingDependenciesError with its exact listing, CircularDependencyError, termination) is compared with a graph "
     "analysis and the reference evaluator. Exhaustive within n; larger graphs are not explored."
+    " Added: a chain of consumers behind one output of a two-output surrogate in all 120 orders, and chains of "
+    "60-320 (thorough 700) components in four declaration orders, closed to a cycle, or with one missing name. "
 )
 LEVEL_NOTE = "trusted: mc/refeval.py, graph analysis in this module; prime-weighted affine node functions make any stale or mis-ordered input visible"
 RULE = (
